@@ -555,11 +555,20 @@ func (s *SourceControl) WriteComment(comment *string, reply *bool) error {
 				s.queuedResults <- err
 				return
 			}
-			defer fp.Close()
-			fp.WriteString(*comment)
 			// Always end the comment file with a newline.
-			if !strings.HasSuffix(*comment, "\n") {
-				fp.WriteString("\n")
+			text := *comment
+			if !strings.HasSuffix(text, "\n") {
+				text += "\n"
+			}
+			// A comment that did not reach the disk (full disk, quota) is reported, once, like an
+			// uncreatable file; Close can be the step that reports the failed write.
+			_, err = fp.WriteString(text)
+			if cerr := fp.Close(); err == nil {
+				err = cerr
+			}
+			if err != nil {
+				s.queuedResults <- fmt.Errorf("could not write %s: %v", commentFilename, err)
+				return
 			}
 		}
 		s.queuedResults <- nil
